@@ -68,12 +68,13 @@ impl Admin {
             r is Err ==> final(deps.storage).view() == old(deps.storage).view(),
     { unimplemented!() }
 }
-// validate_eligible_collateral (string matching, T6) and the token balance query (T5e)
-#[verifier::external_body]
-pub fn validate_funds(deps: Deps, input: String) -> (r: StdResult<AssetInfo>)
-{ unimplemented!() }
-pub uninterp spec fn q_token_balance(q: QuerierWrapper, token: AssetInfo, account: Seq<char>) -> Uint128;
-#[verifier::external_body]
-pub fn query_token_balance(deps: Deps, token: AssetInfo, account_addr: Addr) -> (r: StdResult<Uint128>)
-    ensures r is Ok ==> r->Ok_0 == q_token_balance(deps.querier, token, account_addr@),
-{ unimplemented!() }
+// cosmwasm_std::BalanceResponse / cw20::BalanceResponse / cw20::Cw20QueryMsg (dependency types)
+pub struct BalanceResponse { pub amount: Coin }
+pub struct CW20BalanceResponse { pub balance: Uint128 }
+pub enum Cw20QueryMsg { Balance { address: String } }
+pub open spec fn q_token_balance(q: QuerierWrapper, token: AssetInfo, account: Seq<char>) -> Uint128 {
+    match token {
+        AssetInfo::NativeToken { denom } => query_answer::<BalanceResponse>(q, QueryView::BankBalance { address: account, denom: denom@ }).amount.amount,
+        AssetInfo::Token { contract_addr } => query_answer::<CW20BalanceResponse>(q, QueryView::Smart { addr: contract_addr@, payload: Payload::Cw20QBalance { address: account } }).balance,
+    }
+}
